@@ -9,6 +9,7 @@ extern "C" {
 #endif
 /* ACF CAN */
 uint64_t drv_can_create(void *pdu, uint32_t id, uint8_t *payload, uint16_t len, int variant);
+uint64_t drv_can_create_fixed(void *pdu, uint32_t id, uint8_t *payload, uint16_t len, int variant);
 uint64_t drv_can_setpayload(void *pdu, uint8_t *payload, uint16_t len);
 uint64_t drv_can_finalize(void *pdu, uint16_t len);
 uint64_t drv_can_payload_offset(void *pdu);
